@@ -363,6 +363,116 @@ func mutateWire(r *rand.Rand, b []byte) []byte {
 	return b
 }
 
+// boundaryLens are body lengths around the points where a length prefix grows by one byte.
+var boundaryLens = []int{125, 126, 127, 128, 129, 130, 16381, 16382, 16383, 16384, 16385}
+
+// randBoundaryLit builds a literal in which some length-delimited body (a nested message, a packed list, a map
+// entry, a string) has a length at or next to 127/128 or 16383/16384 bytes (C03, C04: speculative length prefixes).
+func randBoundaryLit(r *rand.Rand, md protoreflect.MessageDescriptor) map[string]any {
+	want := boundaryLens[r.IntN(len(boundaryLens))]
+	if r.IntN(4) != 0 {
+		want = boundaryLens[r.IntN(6)] // mostly the small boundary
+	}
+	for try := 0; try < 3; try++ {
+		if lit := boundaryLitFor(md, want, r.IntN(3)); lit != nil {
+			return lit
+		}
+	}
+	return nil
+}
+
+// boundaryLitFor: route 0 = a nested message whose encoding is `want` bytes, 1 = a packed list whose body is `want` bytes,
+// 2 = a top-level string/bytes value of `want` bytes.  nil if the type has no suitable field.
+func boundaryLitFor(md protoreflect.MessageDescriptor, want, route int) map[string]any {
+	filler := func(n int) []byte {
+		b := make([]byte, n)
+		for i := range b {
+			b[i] = 'a' + byte(i%7)
+		}
+		return b
+	}
+	for _, fd := range allFields(md) {
+		switch route {
+		case 0:
+			if fd.IsList() || fd.IsMap() || fd.Kind() != protoreflect.MessageKind {
+				continue
+			}
+			for _, sf := range allFields(fd.Message()) {
+				if sf.IsList() || sf.IsMap() || !(sf.Kind() == protoreflect.BytesKind || sf.Kind() == protoreflect.StringKind) || sf.Number() >= 16 || sf.ContainingOneof() != nil {
+					continue
+				}
+				for l := want - 4; l <= want-2 && l >= 0; l++ {
+					if 1+protowire.SizeVarint(uint64(l))+l == want {
+						in := map[string]any{"f": []any{[]any{int(sf.Number()), map[string]any{"s": core.B(filler(l))}}}, "u": []any{}}
+						return map[string]any{"f": []any{[]any{int(fd.Number()), map[string]any{"m": in}}}, "u": []any{}}
+					}
+				}
+			}
+		case 1:
+			if !(fd.IsList() && fd.IsPacked() && (fd.Kind() == protoreflect.Int32Kind || fd.Kind() == protoreflect.BoolKind || fd.Kind() == protoreflect.Uint32Kind)) || want > 400 {
+				continue
+			}
+			var es []any
+			one := []byte{1, 0, 0, 0}
+			if fd.Kind() == protoreflect.BoolKind {
+				one = []byte{1}
+			}
+			for i := 0; i < want; i++ { // one byte per element: the packed body is `want` bytes
+				es = append(es, map[string]any{"s": core.B(one)})
+			}
+			return map[string]any{"f": []any{[]any{int(fd.Number()), map[string]any{"l": es}}}, "u": []any{}}
+		case 2:
+			if fd.IsList() || fd.IsMap() || !(fd.Kind() == protoreflect.BytesKind || fd.Kind() == protoreflect.StringKind) || fd.ContainingOneof() != nil {
+				continue
+			}
+			return map[string]any{"f": []any{[]any{int(fd.Number()), map[string]any{"s": core.B(filler(want))}}}, "u": []any{}}
+		}
+	}
+	return nil
+}
+
+// lazyShuffleInput builds wire input in which the lazy message fields of the type occur many times (more than a dozen
+// index entries), non-contiguously and out of field-number order, each occurrence with different scalar content (C17).
+func lazyShuffleInput(r *rand.Rand, md protoreflect.MessageDescriptor) []byte {
+	var lazies []protoreflect.FieldDescriptor
+	for _, fd := range allFields(md) {
+		if l, ok := fd.(interface{ IsLazy() bool }); ok && l.IsLazy() && !fd.IsList() && !fd.IsMap() {
+			lazies = append(lazies, fd)
+		}
+	}
+	if len(lazies) == 0 {
+		return nil
+	}
+	var recs [][]byte
+	n := 13 + r.IntN(12)
+	for i := 0; i < n; i++ {
+		fd := lazies[r.IntN(len(lazies))]
+		sub := NewObj(string(fd.Message().FullName()), false)
+		// one scalar of the submessage, a different value every time
+		for _, sf := range allFields(fd.Message()) {
+			if !sf.IsList() && !sf.IsMap() && sf.Message() == nil && sf.ContainingOneof() == nil {
+				sub.Set(sf, scalarValue(sf.Kind(), randScalar(r, sf)))
+				if r.IntN(3) != 0 {
+					break
+				}
+			}
+		}
+		body, _ := proto.MarshalOptions{AllowPartial: true}.Marshal(sub.Interface())
+		rec := protowire.AppendTag(nil, fd.Number(), protowire.BytesType)
+		rec = protowire.AppendBytes(rec, body)
+		recs = append(recs, rec)
+		if r.IntN(2) == 0 { // something else in between: an unknown varint
+			recs = append(recs, protowire.AppendVarint(protowire.AppendTag(nil, 20000+protowire.Number(r.IntN(40)), protowire.VarintType), uint64(r.IntN(100))))
+		}
+	}
+	r.Shuffle(len(recs), func(i, j int) { recs[i], recs[j] = recs[j], recs[i] })
+	var b []byte
+	for _, x := range recs {
+		b = append(b, x...)
+	}
+	return b
+}
+
 // msgPath picks a random chain of singular message fields from md (possibly empty).
 func msgPath(r *rand.Rand, md protoreflect.MessageDescriptor) ([]any, protoreflect.MessageDescriptor) {
 	at := []any{}
@@ -443,7 +553,7 @@ func stripLitUnknown(lit map[string]any) map[string]any {
 func mixFromEnv() ([]string, []int) {
 	spec := os.Getenv("VERIF_MIX")
 	if spec == "" {
-		spec = "mut=11,marshal=1,size=1,unmarshal=2,rt=1,merge=1,clone=1,equal=1,checkinit=1,reset=1,cat=1,umerge=1,scribble=1"
+		spec = "mut=11,marshal=1,size=1,unmarshal=2,rt=1,merge=1,clone=1,equal=1,checkinit=1,reset=1,cat=1,umerge=1,scribble=1,boundary=1"
 	}
 	var ops []string
 	var ws []int
@@ -462,7 +572,51 @@ func mixFromEnv() ([]string, []int) {
 	return ops, ws
 }
 
+// boundarySweep emits, for every type x flavour given, one history per (route, body length): build the content whose
+// length-delimited body has exactly that length, then round-trip it with default and deterministic marshaling and size it.
+func boundarySweep(emit func(core.Case)) {
+	lens := []int{}
+	for l := 120; l <= 135; l++ {
+		lens = append(lens, l)
+	}
+	if os.Getenv("VERIF_SWEEP_LARGE") != "" {
+		lens = append(lens, 16382, 16383, 16384, 16385)
+	}
+	for _, t := range typesFromEnv() {
+		name, dyn := splitType(t)
+		md := NewObj(name, dyn).Descriptor()
+		for _, want := range lens {
+			for route := 0; route < 3; route++ {
+				lit := boundaryLitFor(md, want, route)
+				if lit == nil {
+					continue
+				}
+				var steps []any
+				for _, e := range core.List(lit["f"]) {
+					pair := core.List(e)
+					v := core.Map(pair[1])
+					if l := core.List(v["l"]); l != nil {
+						steps = append(steps, map[string]any{"op": "setl", "o": 0, "at": []any{}, "f": pair[0], "v": v})
+					} else {
+						steps = append(steps, map[string]any{"op": "set", "o": 0, "at": []any{}, "f": pair[0], "v": v})
+					}
+				}
+				steps = append(steps,
+					map[string]any{"op": "rt", "o": 0, "o2": 1, "det": false, "nolazy": false},
+					map[string]any{"op": "rt", "o": 0, "o2": 2, "det": true, "nolazy": true},
+					map[string]any{"op": "size", "o": 0, "det": false},
+					map[string]any{"op": "marshal", "o": 0, "det": true, "partial": true})
+				emit(core.Case{"type": name, "dyn": dyn, "steps": steps, "lastonly": true})
+			}
+		}
+	}
+}
+
 func histGen(r *rand.Rand, n int, emit func(core.Case)) {
+	if os.Getenv("VERIF_HIST_SWEEP") == "boundary" {
+		boundarySweep(emit)
+		return
+	}
 	types := typesFromEnv()
 	ops, ws := mixFromEnv()
 	total := 0
@@ -494,7 +648,22 @@ func histGen(r *rand.Rand, n int, emit func(core.Case)) {
 			case "size":
 				steps = append(steps, map[string]any{"op": "size", "o": o, "det": r.IntN(2) == 0})
 			case "unmarshal":
-				steps = append(steps, map[string]any{"op": "unmarshal", "o": o, "b": core.B(randBytesFor(r, name, dyn)),
+				in := randBytesFor(r, name, dyn)
+				switch r.IntN(8) {
+				case 0, 2, 3:
+					if sh := lazyShuffleInput(r, md); sh != nil {
+						in = sh
+					}
+				case 1:
+					if bl := randBoundaryLit(r, md); bl != nil {
+						bm := NewObj(name, dyn)
+						fill(bm, bl)
+						if bb, err := (proto.MarshalOptions{AllowPartial: true}).Marshal(bm.Interface()); err == nil {
+							in = bb
+						}
+					}
+				}
+				steps = append(steps, map[string]any{"op": "unmarshal", "o": o, "b": core.B(in),
 					"merge": r.IntN(3) == 0, "partial": r.IntN(3) != 0, "discard": r.IntN(6) == 0 || !keepsUnknown, "nolazy": r.IntN(3) == 0, "limit": 0})
 			case "rt":
 				steps = append(steps, map[string]any{"op": "rt", "o": o, "o2": o2, "det": r.IntN(2) == 0, "nolazy": r.IntN(3) == 0})
@@ -527,6 +696,23 @@ func histGen(r *rand.Rand, n int, emit func(core.Case)) {
 					del = []any{}
 				}
 				steps = append(steps, map[string]any{"op": "evo", "o": o, "o2": o2, "del": del, "det": r.IntN(2) == 0})
+			case "boundary": // populate the object from a literal with a length-boundary body (replaces its content)
+				lit := randBoundaryLit(r, md)
+				if lit == nil {
+					steps = append(steps, randMutation(r, md, o))
+					break
+				}
+				steps = append(steps, map[string]any{"op": "reset", "o": o})
+				for _, e := range core.List(lit["f"]) {
+					pair := core.List(e)
+					v := core.Map(pair[1])
+					fd := fieldByNumber(NewObj(name, dyn), core.Int(pair[0]))
+					if l := core.List(v["l"]); l != nil {
+						steps = append(steps, map[string]any{"op": "setl", "o": o, "at": []any{}, "f": int(fd.Number()), "v": v})
+					} else {
+						steps = append(steps, map[string]any{"op": "set", "o": o, "at": []any{}, "f": int(fd.Number()), "v": v})
+					}
+				}
 			default:
 				mu := randMutation(r, md, o)
 				if !keepsUnknown {
